@@ -502,7 +502,16 @@ void ClipperOffset::DoGroupOffset(Group& group)
 			if (group.join_type == JoinType::Round)
 			{
 				double radius = abs_delta;
-                size_t steps = steps_per_rad_ > 0 ? static_cast<size_t>(std::ceil(steps_per_rad_ * 2 * PI)) : 0; //#617
+				double steps_per_rad = steps_per_rad_;
+				if (deltaCallback64_)
+				{
+					// the radius is the callback's, not the group's, so (as in DoRound)
+					// the number of steps has to be calculated for this radius
+					double arcTol = (arc_tolerance_ > floating_point_tolerance ?
+						std::min(abs_delta, arc_tolerance_) : abs_delta * arc_const);
+					steps_per_rad = std::min(PI / std::acos(1 - arcTol / abs_delta), abs_delta * PI) / (2 * PI);
+				}
+                size_t steps = steps_per_rad > 0 ? static_cast<size_t>(std::ceil(steps_per_rad * 2 * PI)) : 0; //#617
 				path_out = Ellipse(pt, radius, radius, steps);
 #ifdef USINGZ
 				for (auto& p : path_out) p.z = pt.z;
